@@ -123,7 +123,7 @@ Section ZInstance.
          desc1 zopts 1 zstate).
   Proof.
     apply (solve_t_engines_agree Z Z.add Z.sub Z.mul Z.quot Z.opp Z.abs Z.ltb zf zf zid zid zid Z.pow zid zid zid Z.pow 0 1 zt
-             z_neg_mul z_neg_div zprog fmod1 desc1 zopts 1 zstate 1%nat 4%nat 3%nat).
+             zprog fmod1 desc1 zopts 1 zstate 1%nat 4%nat 3%nat).
     - split; [reflexivity|]. repeat constructor.
     - reflexivity.
     - lia.
@@ -132,7 +132,7 @@ Section ZInstance.
     - reflexivity.
     - reflexivity.
     - reflexivity.
-    - constructor; [|constructor]. split; [cbn; lia|]. split; [cbn; tauto|].
+    - constructor; [|constructor]. split; [cbn; lia|]. split; [vm_compute; intuition auto|].
       intros j k H. cbn in H. destruct H as [H|[H|[H|[]]]]; inversion H; subst; cbn; split; lia.
     - reflexivity.
     - reflexivity.
@@ -161,14 +161,14 @@ Section ZInstance.
          desc1 zopts [1; 2; 3]%nat zstate).
   Proof.
     apply (solve_engines_agree Z Z.add Z.sub Z.mul Z.quot Z.opp Z.abs Z.ltb zf zf zid zid zid Z.pow zid zid zid Z.pow 0 1 zt
-             z_neg_mul z_neg_div zprog fmod1 desc1 zopts 4%nat 3%nat 0 0 FRaise).
+             zprog fmod1 desc1 zopts 4%nat 3%nat 0 0 FRaise).
     - lia.
     - repeat constructor.
     - repeat constructor.
     - reflexivity.
     - reflexivity.
     - reflexivity.
-    - constructor; [|constructor]. split; [cbn; lia|]. split; [cbn; tauto|].
+    - constructor; [|constructor]. split; [cbn; lia|]. split; [vm_compute; intuition auto|].
       intros j k H. cbn in H. destruct H as [H|[H|[H|[]]]]; inversion H; subst; cbn; split; lia.
     - cbn; lia.
     - reflexivity.
@@ -194,13 +194,13 @@ Section ZInstance.
     = (f_pass Z Z.add Z.sub Z.mul Z.quot Z.opp Z.abs Z.ltb zid zid zid Z.pow zid zid zid Z.pow 0 1 zprog 3 (vals_of zstate), None).
   Proof.
     apply (evaluate_engines_agree Z Z.add Z.sub Z.mul Z.quot Z.opp Z.abs Z.ltb zf zf zid zid zid Z.pow zid zid zid Z.pow 0 1
-             z_neg_mul z_neg_div zprog fmod1 1%nat 0%nat (-2) zstate 2%nat 4%nat 3%nat).
+             zprog fmod1 1%nat 0%nat (-2) zstate 2%nat 4%nat 3%nat).
     - split; [reflexivity|]. repeat constructor.
     - reflexivity.
     - lia.
     - reflexivity.
     - reflexivity.
-    - constructor; [|constructor]. split; [cbn; lia|]. split; [cbn; tauto|].
+    - constructor; [|constructor]. split; [cbn; lia|]. split; [vm_compute; intuition auto|].
       intros j k H. cbn in H. destruct H as [H|[H|[H|[]]]]; inversion H; subst; cbn; split; lia.
     - reflexivity.
     - lia.
@@ -213,20 +213,20 @@ Section ZInstance.
     [(0%nat, EBin OSub (EBin OAdd (EBin OMul (EInt 2) (EVar 0%nat (-1))) (EBin OMul (EDec 3 3) (EVar 1%nat 0)))
                         (EBin ODiv (EVar 1%nat 0) (EInt 4)))].
   Example benign_instance :
-    prog_scoped Z 3 1 0 zprog_lit /\
+    prog_scoped Z Z.add Z.sub Z.mul Z.quot zid Z.pow 3 1 0 zprog_lit /\
     literal_free Z (snd (hd (0%nat, EInt 0) zprog_lit)) = false /\
     py_pass Z Z.add Z.sub Z.mul Z.quot Z.opp Z.abs Z.ltb zf zf zid zid zid Z.pow true zprog_lit 4 1 (vals_of zstate)
     = (f_pass Z Z.add Z.sub Z.mul Z.quot Z.opp Z.abs Z.ltb zid zid zid Z.pow zid zid zid Z.pow 0 1 zprog_lit 2 (vals_of zstate), None) /\
     nth 1 (nth 0 (f_pass Z Z.add Z.sub Z.mul Z.quot Z.opp Z.abs Z.ltb zid zid zid Z.pow zid zid zid Z.pow 0 1 zprog_lit 2 (vals_of zstate)) []) 0 = 5.
   Proof.
     split; [|split; [reflexivity|split; [|vm_compute; reflexivity]]].
-    - constructor; [|constructor]. split; [cbn; lia|]. split; [cbn; intuition auto|].
+    - constructor; [|constructor]. split; [cbn; lia|]. split; [vm_compute; intuition auto|].
       intros j k H. cbn in H. destruct H as [H|[H|[H|[]]]]; inversion H; subst; cbn; split; lia.
     - apply (pass_agree Z Z.add Z.sub Z.mul Z.quot Z.opp Z.abs Z.ltb zf zf zid zid zid Z.pow zid zid zid Z.pow 0 1
-               z_neg_mul z_neg_div true 4%nat 3%nat 1 0 1 1%nat zprog_lit (vals_of zstate)).
+               true 4%nat 3%nat 1 0 1 1%nat zprog_lit (vals_of zstate)).
       + split; [reflexivity|]. repeat constructor.
       + reflexivity.
-      + constructor; [|constructor]. split; [cbn; lia|]. split; [cbn; intuition auto|].
+      + constructor; [|constructor]. split; [cbn; lia|]. split; [vm_compute; intuition auto|].
         intros j k H. cbn in H. destruct H as [H|[H|[H|[]]]]; inversion H; subst; cbn; split; lia.
       + lia.
       + lia.
@@ -309,7 +309,7 @@ Section ZSkip.
     - split; [reflexivity|]. repeat constructor.
     - reflexivity.
     - cbn [solve_okG]. split.
-      + split; [lia|]. split; [reflexivity|]. right. left. split; [left; reflexivity|]. split.
+      + split; [lia|]. right. split; [reflexivity|]. right. left. split; [left; reflexivity|]. split.
         * intros i k Hi. change (Z.to_nat (max_iter zopts_skip)) with 5%nat in Hi. five_cases i.
         * change (Z.to_nat (max_iter zopts_skip)) with 5%nat. unfold regime_from. split; [|split; [|split]].
           -- intros i Hi. five_cases i.
@@ -318,7 +318,7 @@ Section ZSkip.
           -- intros E. discriminate E.
       + match goal with |- context [if ?b then _ else _] => let x := eval vm_compute in b in change b with x end. cbv iota.
         split; [|exact I].
-        split; [lia|]. split; [reflexivity|]. right. left. split; [left; reflexivity|]. split.
+        split; [lia|]. right. split; [reflexivity|]. right. left. split; [left; reflexivity|]. split.
         * intros i k Hi. change (Z.to_nat (max_iter zopts_skip)) with 5%nat in Hi. five_cases i.
         * change (Z.to_nat (max_iter zopts_skip)) with 5%nat. unfold regime_from. split; [|split; [|split]].
           -- intros i Hi. five_cases i.
@@ -332,7 +332,7 @@ Section ZSkip.
   Definition zopts_mix : opts Z := mkOpts 0 2 1 0 false ESkip true.
   Ltac three_cases i := destruct i as [|[|[|i]]]; try lia; vm_compute; reflexivity.
   Ltac mix_period :=
-    split; [lia|]; split; [reflexivity|]; right; left; split; [left; reflexivity|]; split;
+    split; [lia|]; right; split; [reflexivity|]; right; left; split; [left; reflexivity|]; split;
     [ let i := fresh "i" in let k := fresh "k" in let Hi := fresh "Hi" in
       intros i k Hi; change (Z.to_nat (max_iter zopts_mix)) with 2%nat in Hi; three_cases i
     | change (Z.to_nat (max_iter zopts_mix)) with 2%nat; unfold regime_from; split; [|split; [|split]];
